@@ -95,7 +95,7 @@ type scCfg struct {
 	IdentFail bool   `json:"ident_fail"`
 	ExpFail   bool   `json:"exp_fail"`
 	TsFail    bool   `json:"ts_fail"`
-	Rev       int    `json:"rev"`  // 0 ok, 1 revoked, 2 validator error, 3 too many results, 4 nil result entry, 5 too few results, 6 (nil, nil), 7 empty slice
+	Rev       int    `json:"rev"`  // 0 ok, 1 revoked, 2 validator error, 3 too many results, 4 nil result entry, 5 too few results, 6 (nil, nil), 7 empty slice, 8 one result per certificate with a nil entry among the ServerResults of one of them
 	Resp      int    `json:"resp"` // 0 error, 1 (nil, nil), 2 response
 	AllProc   bool   `json:"all_processed"`
 	TI        int    `json:"ti"`          // 0 missing, 1 success, 2 failure
@@ -312,7 +312,7 @@ func scTerm(s scCfg) string {
 		[]string{"PAbsent", "PInvalid", "PName"}[s.PAttr],
 		CBool(s.Minver == 2), CBool(s.Minver == 3), CBool(s.NonStr), CBool(s.Crit || (s.PAttr == 0 && s.Minver != 0)),
 		CBool(s.Auth != 0), CBool(s.IdentFail), CBool(s.ExpFail), CBool(s.TsFail),
-		[]string{"RevOK", "RevFail", "RevErr", "RevBadShape", "RevBadShape", "RevBadShape", "RevBadShape", "RevBadShape"}[s.Rev],
+		[]string{"RevOK", "RevFail", "RevErr", "RevBadShape", "RevBadShape", "RevBadShape", "RevBadShape", "RevBadShape", "RevNilServer"}[s.Rev],
 		resp,
 		CBool(s.Payload >= 1), CBool(s.Payload >= 2), CBool(s.DescMatch), CBool(s.MetaReq), CBool(s.Payload == 2), CBool(s.DescGen))
 }
@@ -863,6 +863,10 @@ func (e *env) scriptRev(rs *RevScript, sc scCfg) {
 		results = nil // (nil, nil)
 	case 7:
 		results = []*revresult.CertRevocationResult{}
+	case 8:
+		// passes checkRevocationResults; revocationFinalResult dereferences every server result
+		results[len(results)-1] = &revresult.CertRevocationResult{Result: revresult.ResultOK,
+			ServerResults: []*revresult.ServerResult{{Result: revresult.ResultOK}, nil}}
 	}
 	rs.Results, rs.Err = results, verr
 }
@@ -1301,7 +1305,7 @@ func run(a *Args) error {
 	w := NewCaseWriter(a, "C12", prelude, "case", "run")
 	w.Rule = "PART 1 (correspondence, evaluated in Coq): the nil-ability lattice run on the real code under recover. Families: lattice = every construction {OCI-only, blob-only, both} x {no applicable statement, strict, permissive, audit, skip, two custom levels} x plugin manager {nil, plugin missing, installed} x entry point {verifier.Verify, VerifyBlob, SkipVerify, notation.Verify, notation.VerifyBlob} x signature {verifies, corrupted, empty, untrusted, plugin demanded, payload not a descriptor}; single = every single deviation from the all-good scenario x level x entry; scen = random scenarios (plugin header states, manager/metadata/capability/response states including the contract violations (nil,nil), native failures, revocation answers including malformed vectors, payload/metadata/descriptor variants, both envelope formats); loop = notation.Verify with nil/custom/library verifier, nil repository, attempt limits <=0..5, reference/resolve/listing failures and lists of 0..4 signatures; blob = notation.VerifyBlob guards x implementations; construct = constructor refusals; usermeta = UserMetadata on hand-made outcomes; corpus = the two fixed panics (00e9a29, 87f7f59) and corpus/C12/*.json; refuted = the witnesses of C12_failure_outcome_notation_refuted; registry = the real registry client (FetchSignatureBlob / ListSignatures) over a scripted oras.GraphTarget that logs the declared size of every descriptor handed to Fetch: manifest kind x content shape x number of blobs x declared sizes (negative, 0, at / above the caps, 2^62, MaxInt64, real +-1) x digests x media types, listings with one deviating referrer at every position (evaluated against C12_Registry: requests and result; oracle = no request above its cap). Every outcome returned is also asked for UserMetadata(). non-trivial = a nil-able field is nil, a guard or early return is taken, or a validation fails; distinct = distinct case descriptions. PART 2 (exploration, Go side only, NOT part of the theorem): see exploration_* keys"
 	w.Assumptions = []string{
-		"contracts of injected components (wf): a caller-supplied Verifier / BlobVerifier returns an error-free outcome when it returns no error (since the fixes d78db00 and 686cc56 there is no contract on the revocation validator or on the verification plugin: result vectors of the wrong shape and (nil, nil) answers to get-plugin-metadata / verify-signature are ordinary inputs). Cases violating them are still run and must agree with the model (which predicts the panic); only the property oracle is not applied to them",
+		"contracts of injected components (wf): a caller-supplied Verifier / BlobVerifier returns an error-free outcome when it returns no error; the revocation validator puts no nil entry among the ServerResults of a result (revocationFinalResult dereferences each; checkRevocationResults does not look at them - found by the GoLite translation). Since the fixes d78db00 and 686cc56 there is no contract on the SHAPE of the revocation result vector or on the verification plugin: result vectors of the wrong shape and (nil, nil) answers to get-plugin-metadata / verify-signature are ordinary inputs. Cases violating them are still run and must agree with the model (which predicts the panic); only the property oracle is not applied to them",
 		"a typed-nil pointer wrapped in an interface (verifier, repository, plugin manager, validator) is a caller error outside the lattice",
 		"the trust policy documents are not mutated after the verifier was constructed (GetVerificationLevel cannot fail on a validated statement)",
 		"notation-core-go returns a non-empty certificate chain and a supported signature algorithm for an envelope it verified",
